@@ -42,7 +42,15 @@ TOKENS = TokenTable()
 
 
 def _is_symbolic(x) -> bool:
-    return type(x).__module__.startswith("crosshair")
+    # under tracing type() reports the emulated Python type; look at the real one
+    try:
+        from crosshair.tracers import NoTracing, is_tracing
+    except ImportError:  # concrete replays never see symbolics
+        return False
+    if not is_tracing():
+        return type(x).__module__.startswith("crosshair")
+    with NoTracing():
+        return type(x).__module__.startswith("crosshair")
 
 
 class _ScalarNp:
@@ -109,6 +117,23 @@ class _ScalarNp:
     @staticmethod
     def float64(x):
         return x
+
+    @classmethod
+    def round(cls, x, decimals=0):
+        """Round half away from zero at `decimals` places (numpy rounds half to even; the
+        difference is a measure-zero set of ties and irrelevant to what uses this)."""
+        if hasattr(x, "items") and not isinstance(x, dict):
+            x = x.items
+        if isinstance(x, (list, tuple)):
+            return type(x)(cls.round(v, decimals) for v in x)
+        if not _is_symbolic(x):
+            return _real_np.round(x, decimals)
+        scale = 10 ** decimals
+        y = x * scale
+        n = int(y + 0.5) if y >= 0 else -int(-y + 0.5)
+        return n / scale
+
+    around = round
 
     def __getattr__(self, name):  # anything else: the real thing
         return getattr(_real_np, name)
